@@ -2,7 +2,7 @@ from common import *
 from rpcommon import *
 ID = 'C07'
 TRANSLATORS = []
-COQ_TARGETS = ['Corr/Dispatch.vo']
+COQ_TARGETS = ['Properties_C07.vo']
 HARNESS_MODS = ['rp']
 RULE = ('cases: rp.corrupt 1 mem16 style blocksize l:bits h:frame l:verdicts - the valid serial frame with the listed bits flipped (bit i = bit i%8, least '
         'significant first, of octet i/8) is SLIP-framed, received and processed; obs as rp.serve (return code, error id, parsed frame, backend calls, reply, '
@@ -17,9 +17,9 @@ TRUSTED_BASE = TB_COMMON + ['Model/Regp.v and Model/RegpSpec.v are hand-written 
 ASSUMPTIONS = ['bursts are measured in transmission order of an asynchronous serial line: least significant bit of each octet first',
                'little-endian host']
 EXHAUSTIVE = {'quick': False, 'thorough': False}
-TECHNIQUE = 'Coq proof + correspondence + property predicate'
-LEVEL_TEXT = 'wip'
-LEVEL_NOTE = 'wip'
+TECHNIQUE = 'Coq proof (receiver = independent reading of the document for every octet sequence; CRC-16/ARC linearity, burst and double-bit detection; damaged-frame theorems; refutation witness) + correspondence + property predicate on every corpus corruption'
+LEVEL_TEXT = 'Theorems in Properties_C07.v: the receiver model\'s verdict equals the independent reading of doc/regp.txt (Model/RegpSpec.v) for EVERY octet sequence; CRC-16/ARC is xor-linear, detects every burst of <= 16 bits (LSB-first order) and every two damaged bits < 32767 bits apart in messages of any length; for serial frames: any such damage inside sequence/address/size, inside the stored checksums, in the payload, any single-bit error of the first header word, truncation and extension are classified as header-encoding, header-checksum, size or payload-checksum fault (never accepted); frames with payload: every damage behind the first word is reported.  The burst clause is REFUTED for frames without payload-checksum field whose block size is not cross-checked (read requests, meta): C07_burst_refuted (witness) and C07_boundary_bursts_exactly (exactly 63 patterns across the block-size/checksum boundary) - recorded as known finding.  Model tied to the C by correspondence; the predicate "damaged frame => fault and no backend call" is evaluated on the implementation for every corpus corruption.'
+LEVEL_NOTE = 'Partial by refutation: the property is false as stated (known finding C07-burst-header-crc-boundary, wire-format matter). Trusted: Coq kernel incl. vm_compute sweeps; hand model + hand-written independent spec; correspondence. No axioms.'
 NO_SHRINK = True
 
 def corpus(rng):
